@@ -140,9 +140,12 @@ def render_pattern(pat, kind, end_anchor=True):
 def instance(rnd, pat, mutate=None):
     alt = rnd.choice(pat["alts"])
     parts = []
+    same = {} if rnd.random() < 0.4 else None        # sometimes all fields of one kind get the same text ("5 and 5")
     for a in alt:
         if a[0] == "lit":
             parts.append(a[1])
+        elif same is not None:
+            parts.append(same.setdefault(a[1], rnd.choice(SAMPLE[a[1]])))
         else:
             parts.append(rnd.choice(SAMPLE[a[1]]))
     text = "".join(parts)
@@ -434,6 +437,20 @@ def oracle(case, obs):
                                                                                                  a["original"]), "span-does-not-delimit-original"))
             if [a["start"] for a in args] != sorted(a["start"] for a in args):
                 out.append(("arguments are not in text order: %r" % [a["start"] for a in args], "argument-order"))
+            # the spans of different arguments do not overlap, and for a flat parse pattern the literal words and the
+            # arguments' original texts, in pattern order, spell the step text
+            sp = [(a["start"], a["end"]) for a in args if a["start"] is not None and a["start"] >= 0]
+            if any(x[1] > y[0] for x, y in zip(sp, sp[1:])):
+                out.append(("argument spans overlap: %r in %r" % (sp, text), "span-does-not-delimit-original"))
+            pw = case["patterns"][want[0]]
+            if want[1] in ("parse", "cfparse") and len(pw["alts"]) == 1 and pw.get("end", True):
+                flds = [x for x in pw["alts"][0] if x[0] == "field"]
+                if len(flds) == len(args):
+                    it = iter(args)
+                    spelled = "".join(x[1] if x[0] == "lit" else (next(it)["original"] or "") for x in pw["alts"][0])
+                    if spelled != text:
+                        out.append(("step %r: literals and argument originals in pattern order spell %r (arguments %r)" % (
+                            text, spelled, [(a["start"], a["end"], a["original"]) for a in args]), "span-does-not-delimit-original"))
             pat_w = case["patterns"][want[0]]
             if want[1] in ("parse", "cfparse") and len(pat_w["alts"]) == 1:
                 flds = [x for x in pat_w["alts"][0] if x[0] == "field"]
@@ -864,6 +881,18 @@ def gen_case(rnd, factory_rate=0.04):
             ops.append(["lookup", stype, t])
     if rnd.random() < 0.3:
         ops = with_retype(rnd, patterns, ops)
+    if rnd.random() < 0.2:
+        # two unnamed fields of one kind whose texts convert to equal values ("7 and 07"): each argument keeps its own span
+        word = rnd.choice(["add", "swap", "pair"])
+        kind = rnd.choice(["int", "number", "word"])
+        q = {"alts": [[("lit", word + " "), ["field", kind, None], ("lit", " and "), ["field", kind, None]]], "end": True}
+        patterns.append(q)
+        t = rnd.choice(TYPES)
+        ops.append(["use", rnd.choice(["parse", "cfparse"])])
+        ops.append(["register", t, len(patterns) - 1, 0])
+        a, b = {"int": ("7", "07"), "number": ("42", "42"), "word": ("foo", "foo")}[kind]
+        for x, y in ((a, b), (a, a)):
+            ops.append(["lookup", t if t != "step" else rnd.choice(TYPES), "%s %s and %s" % (word, x, y)])
     if rnd.random() < 0.25:
         # a type-specific definition whose converter rejects some texts, and a generic definition that matches the same texts:
         # the type-specific one stays the one bound (a conversion error does not send the look-up on to later definitions)
